@@ -90,7 +90,8 @@ def _rule_grammar_inner(ctx):
     guarded = False
     for r in raises:
         for c, p in symeval.pc_conds(r.pc):
-            if (c is use.term and not p) or (c.op == "un" and c.a[0] == "not" and c.a[1] is use.term and p):
+            is_none = c.op == "cmp" and c.a[0] == "is" and any(z is use.term for z in c.a[1:]) and any(tm.is_const(z, None) for z in c.a[1:])
+            if (c is use.term and not p) or (c.op == "un" and c.a[0] == "not" and c.a[1] is use.term and p) or (is_none and p):
                 guarded = r.exc == "InvalidChordException"
     yield ob("C10.GRAMMAR", f, "chord.validate_chord_label:raise-iff-nomatch", guarded, "raises InvalidChordException exactly when CHORD_RE.%s(label) fails" % method, node=use.node)
     arg_ok = len(use.args) == 1 and use.args[0].op == "param"
@@ -273,6 +274,9 @@ def rule_exc(ctx):
                 for c, p in facts(sb.pc):
                     if c.op == "cmp" and c.a[0] in ("notin", "in") and c.a[1] is key and c.a[2] is sb.base and ((c.a[0] == "notin") != p):
                         good = True
+                if not good:
+                    # ... or sits in a try whose handler takes the KeyError (look-up with a default written as try/except)
+                    good = any(x[0] == "try" and any("KeyError" in str(h) or "LookupError" in str(h) or str(h) in ("None", "Exception", "BaseException") for h in (x[2] or ())) for x in sb.pc)
                 yield ob("C10.EXC", f, "%s:lookup:%s@%d" % (q, sb.base.a[0], k), good, "subscript of %s is dominated by a membership test that raises" % sb.base.a[0], node=sb.node)
                 k += 1
         for c in s.calls():
